@@ -28,7 +28,8 @@ def main() -> int:
                     )
                     meta["runs"].append({"id": item["id"], "kind": "adv", "seed": item["seed"], "lines": tr.n,
                                          "vehicles": len(w["vehicles"]), "requests": len(w["requests"]),
-                                         "stations": len(w["stations"]), "fleets": bool(w.get("fleets")), "dt": w["dt"]})
+                                         "stations": len(w["stations"]), "fleets": bool(w.get("fleets")), "dt": w["dt"],
+                                         "price_mode": w.get("price_mode"), "lazy": bool(w.get("lazy"))})
                 elif item["kind"] == "shipped":
                     scen = Path(item["scenario"])
                     rp, tr = runs.run_shipped(
